@@ -510,7 +510,7 @@ func (g *declGen) group(ns *nameSets, nsPrefix string, depth int, allowEmpty boo
 	if n := nTagged; n > 0 && !cfg.NoPtr && pct(t, "inlineBlock", 12) {
 		from := rapid.IntRange(0, n-1).Draw(t, "inlineFrom")
 		to := rapid.IntRange(from+1, n).Draw(t, "inlineTo")
-		mark := rapid.SampledFrom([]string{"s", "p", "p", "P", "e"}).Draw(t, "inlineMark")
+		mark := rapid.SampledFrom([]string{"s", "p", "p", "P", "e", "E"}).Draw(t, "inlineMark")
 		for i := from; i < to; i++ {
 			gr.Options[i].Inline = mark
 		}
